@@ -1186,7 +1186,14 @@ def _known_variant(rec, preds, P, y):
     ks = [v for v, tb in t["arms"] if tb == P]
     if len(ks) != 1 or t["otherwise"] == P:
         return None
-    # y must not be written in P before the move (P's statements are the move's block)
+    # y keeps the value whose discriminant was read: no write to y after that read in the switch block, none in P
+    after = qb["stmts"][qb["stmts"].index(src[0]) + 1:]
+    if any(st["k"] != "assign" or st["place"]["local"] == y or (st["rv"]["k"] in ("ref", "rawptr") and st["rv"].get("mut") and st["rv"]["place"]["local"] == y)
+           for st in after):
+        return None
+    if any(st["k"] == "assign" and (st["place"]["local"] == y or (st["rv"]["k"] in ("ref", "rawptr") and st["rv"].get("mut") and st["rv"]["place"]["local"] == y))
+           for st in rec["blocks"][P]["stmts"]):
+        return None
     return ks[0]
 
 
